@@ -31,7 +31,7 @@ RULE = (
     "one evaluation = one batch (program, dataset, options): all-samples run, every solo run, permuted / subset runs, pools run and physically merged run in one interpreter; "
     "distinct_nontrivial = distinct (program, dataset seed, run kind, sample set / order, interference pattern) runs whose sample columns were compared with the solo columns"
 )
-FAULT_KEYS = ["inbreeding_file", "fit_interference", "prior_work", "permuted_runs", "subset_runs", "solo_runs", "pool_runs", "merged_runs", "multi_core_runs", "sample_in_two_pools"]
+FAULT_KEYS = ["read_group_field_id", "single_pool_name_runs", "inbreeding_file", "fit_interference", "prior_work", "permuted_runs", "subset_runs", "solo_runs", "pool_runs", "merged_runs", "multi_core_runs", "sample_in_two_pools"]
 PROBE_KEYS = ["call_pool_start_state_tie_skipped", "exact_tie_skipped", "gl_values_compared", "pool_file_interleaved", "columns_compared", "records_compared_pool_vs_merged", "unknown_alleles_named_by_others", "alt_renumbered", "refmasked_solo_only",
               "programs_assemble", "programs_call", "programs_call_exact", "sample_in_two_pools", "fits_observed"]
 OPTIONAL_PROBES = {"quick": ("alt_renumbered", "refmasked_solo_only", "exact_tie_skipped", "call_pool_start_state_tie_skipped"), "thorough": ()}
@@ -81,6 +81,8 @@ def _gen_config(rng, tier, index=0):
         "temperatures": rng.choice([None, None, [0.3, 1.0]]),
         "inbreeding": rng.choice([None, None, "const", "file", "file"]),
         "opt_picks": [rng.random() for _ in range(2)],
+        "rg_field_id": rng.random() < 0.12,
+        "single_pool_name": rng.random() < 0.25,
     }
 
 
@@ -129,7 +131,7 @@ class Batch(scn_c08.Batch):
                 a += ["--haplotype-posterior-threshold", str(cfg["threshold"])]
         else:
             a += ["--haplotypes", hapvcf]
-        a += ["--bam", bam_list, "--ploidy", ploidy_file] + a_inb
+        a += ["--bam", bam_list, "--ploidy", ploidy_file] + a_inb + list(getattr(self, "extra_args", []))
         if pool_file:
             a += ["--sample-pool", pool_file]
         rep = sorted(set(cfg["report"]))
@@ -285,6 +287,17 @@ def run_batch(ctx, b):
     ds = b.build_dataset()
     samples = list(ds["samples"])
     ploidy = dict(ds["ploidy"])
+    b.extra_args = []
+    if cfg.get("rg_field_id") and ds.get("rg_ids") and cfg["dataset"] == "synthetic":
+        # --read-group-field ID: every read group is its own sample
+        units = sorted(ds["rg_ids"])
+        ds = dict(ds)
+        ds["bams"] = {u: ds["rg_ids"][u][1] for u in units}
+        ploidy = {u: ploidy[ds["rg_ids"][u][0]] for u in units}
+        samples = units
+        b.extra_args = ["--read-group-field", "ID"]
+        b.rg_field = "ID"
+        ctx.counters.inc("read_group_field_id")
     pf_all = b.ploidy_file(ploidy)
     all_list = b.bam_list(ds, samples)
     day = scn_c08.DAY0
@@ -398,6 +411,25 @@ def run_batch(ctx, b):
             elif cfg.get("inbreeding") == "file":
                 inb_pool = b.inbreeding_file(pool_names, {p: ["0.0", "0.1", "0.3"][ctx.tape.int(0, 2)] for p in pool_names})
             prec, r = run(samples, pf=pf_pool, pool_file=pool_file, names=pool_names, inb=inb_pool)
+            if cfg.get("single_pool_name") and prec is not None:
+                # `--sample-pool NAME` (not a file) = one pool holding every sample: must equal the file form
+                ctx.step += 1
+                one = {"ALLPOOL": list(samples)}
+                pf_one = b.ploidy_file({"ALLPOOL": min(6, max(ploidy.values()))})
+                inb_one = None if inb_pool is None else ("0.2" if cfg.get("inbreeding") == "const" else b.inbreeding_file(["ALLPOOL"], {"ALLPOOL": "0.1"}))
+                one_file = b.path(".pools")
+                with open(one_file, "w") as f:
+                    for s_ in samples:
+                        f.write("%s\tALLPOOL\n" % s_)
+                r_name, rr1 = run(samples, pf=pf_one, pool_file="ALLPOOL", names=["ALLPOOL"], inb=inb_one)
+                r_file, rr2 = run(samples, pf=pf_one, pool_file=one_file, names=["ALLPOOL"], inb=inb_one)
+                ctx.counters.inc("single_pool_name_runs")
+                if r_name is None or r_file is None:
+                    raise Violation("pool_run_failed", "single-pool run fails: %r / %r" % (rr1["error"], rr2["error"]), step=ctx.step)
+                for lid in r_file:
+                    if lid not in r_name or r_name[lid]["line"] != r_file[lid]["line"]:
+                        raise Violation("pool_differs_from_merged", "`--sample-pool ALLPOOL` differs from the equivalent pool file at locus %s" % lid, step=ctx.step,
+                                        detail={"by_name": (r_name.get(lid) or {}).get("line", "")[:300], "by_file": r_file[lid]["line"][:300]})
             ctx.counters.inc("pool_runs")
             if prec is None:
                 raise Violation("pool_run_failed", "pooled run fails: %r" % (r["error"],), step=ctx.step)
@@ -457,7 +489,10 @@ def merge_bams(b, m, ds, pools):
                 hd = f.header.to_dict()
                 if header is None:
                     header = {k: v for k, v in hd.items() if k != "RG"}
-                ids = {g["ID"] for g in hd["RG"] if g["SM"] == s}
+                if getattr(b, "rg_field", "SM") == "ID":
+                    ids = {s}
+                else:
+                    ids = {g["ID"] for g in hd["RG"] if g["SM"] == s}
                 for r in f:
                     if r.get_tag("RG") in ids:
                         d = r.to_dict()
@@ -465,12 +500,12 @@ def merge_bams(b, m, ds, pools):
                         # reused across samples (the repo's own test files do that): keep names unique
                         d["name"] = "%s:%s" % (s, d["name"])
                         recs.append(d)
-        header["RG"] = [{"ID": "RG_" + p, "SM": p, "LB": "lib", "PL": "Illumina", "PU": "u"}]
+        header["RG"] = [{"ID": p, "SM": p, "LB": "lib", "PL": "Illumina", "PU": "u"}]
         hdr = pysam.AlignmentHeader.from_dict(header)
         segs = []
         for d in recs:
             d = dict(d)
-            d["tags"] = [t for t in d["tags"] if not t.startswith("RG:")] + ["RG:Z:RG_" + p]
+            d["tags"] = [t for t in d["tags"] if not t.startswith("RG:")] + ["RG:Z:" + p]
             segs.append(pysam.AlignedSegment.from_dict(d, hdr))
         segs.sort(key=lambda x: (x.reference_id, x.reference_start))
         path = b.path(".bam")
@@ -554,7 +589,7 @@ def sut_exception_is_violation(e, ctx):
 
 def shrink_candidates(cfg, violation):
     out = []
-    for k, v in (("inbreeding", None), ("interference", None), ("pools", False), ("subset", False), ("n_perm", 1), ("cores", 1), ("chains", 1), ("report", []), ("threshold", None)):
+    for k, v in (("rg_field_id", False), ("single_pool_name", False), ("inbreeding", None), ("interference", None), ("pools", False), ("subset", False), ("n_perm", 1), ("cores", 1), ("chains", 1), ("report", []), ("threshold", None)):
         if cfg.get(k) != v:
             out.append(dict(cfg, **{k: v}))
     if cfg["dataset"] != "simple":
